@@ -12,29 +12,31 @@
 (* of the limit check is exact; in mode "free" it may be stale.            *)
 (***************************************************************************)
 EXTENDS Counter, Nt, TraceLib
-VARIABLES started, mode, flushed
-tvars == <<cvars, l, started, mode, flushed>>
+VARIABLES started, mode, flushed, finals
+tvars == <<cvars, l, started, mode, flushed, finals>>
 
 \* partition of a k-mer given as base-4 digits: its numeric code modulo n, computed digit by digit
 ModDigits(d, n) == LET m[i \in 0..Len(d)] == IF i = 0 THEN 0 ELSE (4 * m[i-1] + d[i]) % n IN m[Len(d)]
 
 NoCfg == [recs |-> <<>>, nparts |-> 1, limit |-> 0, nw |-> 1, delete |-> TRUE]
-TInit == TrackInit /\ l = 1 /\ started = FALSE /\ mode = "free" /\ flushed = {} /\ CInitCfg(NoCfg)
+TInit == TrackInit /\ l = 1 /\ started = FALSE /\ mode = "free" /\ flushed = {} /\ finals = {} /\ CInitCfg(NoCfg)
+\* a run is complete when its directory listing and its decoded counts file have both been judged
+RunComplete == ~started \/ (phase = "done" /\ finals = {"listing", "counts"})
 
 A(i) == Ev.a[i]
 W == ((Ev.t - 1) % ccfg.nw) + 1           \* tasks are numbered 1.. across the chunks' worker pools
 IsExact == mode = "sched"
-Skip == Consume /\ UNCHANGED <<cvars, started, mode, flushed>>
-Keep == UNCHANGED <<started, mode, flushed>>
+Skip == Consume /\ UNCHANGED <<cvars, started, mode, flushed, finals>>
+Keep == UNCHANGED <<started, mode, flushed, finals>>
 
 CfgOf(e) == [recs |-> [i \in 1..Len(e.recs) |->
                          [len |-> Len(e.recs[i]), kmers |-> CanonWindows(Classes(e.recs[i]), e.k)]],
              nparts |-> e.nparts, limit |-> e.limit, nw |-> e.nw, delete |-> (e.delete = 1)]
 
-TReset == /\ Is("reset") /\ (~started \/ phase = "done")
+TReset == /\ Is("reset") /\ RunComplete
           /\ Ev.nw >= 1 /\ Ev.nparts >= 1
           /\ (\E c \in {CfgOf(Ev)} : CReset(c))     \* (bound once: TLC re-evaluates plain operator arguments in actions)
-          /\ started' = TRUE /\ mode' = Ev.mode /\ flushed' = {} /\ Consume
+          /\ started' = TRUE /\ mode' = Ev.mode /\ flushed' = {} /\ finals' = {} /\ Consume
 
 TCtrInit == Is("ctr.init") /\ started /\ A(1) = ccfg.nparts /\ A(2) = N /\ A(4) = ccfg.nw /\ Skip
 TChunkBegin == Is("ctr.chunk_begin") /\ phase = "count" /\ A(1) = chunk /\ (\A w \in Workers : pc[w] = "check") /\ Skip
@@ -68,11 +70,11 @@ TPartFlush == /\ Is("ctr.part_flush") /\ phase = "count" /\ (\A w \in Workers : 
               /\ A(1) \in Parts /\ A(1) \notin flushed /\ A(2) = chunk
               /\ A(3) = Cardinality(DOMAIN table[A(1)])
               /\ flushed' = flushed \cup {A(1)}
-              /\ Consume /\ UNCHANGED <<cvars, started, mode>>
+              /\ Consume /\ UNCHANGED <<cvars, started, mode, finals>>
 TChunkEnd == /\ Is("ctr.chunk_end") /\ A(1) = chunk /\ A(2) = nrecs
              /\ (nrecs > 0 => flushed = Parts) /\ (nrecs = 0 => flushed = {})
              /\ ChunkEnd /\ flushed' = {}
-             /\ Consume /\ UNCHANGED <<started, mode>>
+             /\ Consume /\ UNCHANGED <<started, mode, finals>>
 TMergeBegin == Is("ctr.merge_begin") /\ phase = "merge" /\ mpart = 0 /\ A(1) = ccfg.nparts /\ A(2) = chunk
                /\ A(3) = (IF ccfg.delete THEN 1 ELSE 0) /\ Skip
 TMBefRead == Is("ctr.merge_before_read") /\ phase = "merge" /\ A(1) = mpart /\ A(2) \in mtodo /\ Skip
@@ -83,19 +85,19 @@ TMBefDel == Is("ctr.merge_before_delete") /\ A(1) = mpart /\ A(2) \in mread /\ S
 TMDone == Is("ctr.merge_task_done") /\ A(1) = mpart /\ MergeDelete(A(2)) /\ Consume /\ Keep
 TMPart == /\ Is("ctr.merge_part_done") /\ A(1) = mpart /\ A(2) = Cardinality(DOMAIN mmap)
           /\ MergeWrite /\ Consume /\ Keep
-TFinish == phase = "merge" /\ Finish /\ UNCHANGED <<l, started, mode, flushed>>
+TFinish == phase = "merge" /\ Finish /\ UNCHANGED <<l, started, mode, flushed, finals>>
 \* what is left in the output directory, and the decoded counts file
 TListing == /\ Is("listing") /\ phase = "done"
             /\ {<<Ev.temps[i][1], Ev.temps[i][2]>> : i \in 1..Len(Ev.temps)} = DOMAIN temps
-            /\ Skip
+            /\ finals' = finals \cup {"listing"} /\ Consume /\ UNCHANGED <<cvars, started, mode, flushed>>
 TCounts == /\ Is("counts") /\ phase = "done"
            /\ Len(Ev.lines) = Cardinality(DOMAIN counts)
            /\ \A i \in 1..Len(Ev.lines) :
                 LET d == LowDigits(Ev.lines[i][1], Ev.k) IN
                 /\ HighZero(Ev.lines[i][1], Ev.k)
                 /\ d \in DOMAIN counts /\ counts[d] = Ev.lines[i][2]
-           /\ Skip
-TEof == Is("eof") /\ (~started \/ phase = "done") /\ Skip
+           /\ finals' = finals \cup {"counts"} /\ Consume /\ UNCHANGED <<cvars, started, mode, flushed>>
+TEof == Is("eof") /\ RunComplete /\ Skip
 
 TNext == \/ TReset \/ TCtrInit \/ TChunkBegin \/ TStart \/ TBefCheck \/ TObs \/ TExitLimit \/ TBefTake \/ TTake
          \/ TTakeNone \/ TAftTake \/ TCounted \/ TBefAdd \/ TAftAdd \/ TExit \/ TPartFlush \/ TChunkEnd
